@@ -16,6 +16,7 @@ CONSTANTS
   YieldK <- NoSet
   TerminalQueries = FALSE
   AllowEmpty = FALSE
+  AddForms <- NoSet
 INVARIANT Verdict
 INVARIANT WorkspaceWellFormed
 INVARIANT SplitPartitions
